@@ -88,6 +88,24 @@ def property_on_impl(m, maxseg_lambda=None):
             g = abs(e[key]) ** 2 * 1000.0 ** 2 / (59.96 * 25.0)
             if abs(g - l[k]) > 2e-4 * mx:
                 return 'gain %r vs |E|^2 r^2/(59.96 P) = %r at theta=%g phi=%g' % (l[k], g, th, ph)
+    # the same relation with the power the sources really deliver, P = sum 1/2 Re(V conj I) computed here from the
+    # voltages and the feed-pulse currents, and the field without a requested power level
+    ptrue = sum(0.5 * (complex(s_.voltage) * complex(m.current[s_.idx]).conjugate()).real for s_ in m.sources)
+    if ptrue > 0:
+        eabs = farlib.impl_far(m, THETAS, PHIS, dist=1000.0)
+        for (th, ph), v in base.items():
+            l = lin(v['db'])
+            for k, key in ((0, 'e_theta'), (1, 'e_phi')):
+                g = abs(eabs[(th, ph)][key]) ** 2 * 1000.0 ** 2 / (59.96 * ptrue)
+                if abs(g - l[k]) > 2e-4 * mx:
+                    return ('gain %r vs |E|^2 r^2/(59.96 P) = %r at theta=%g phi=%g with P = %r W delivered by the sources (sum of '
+                            '1/2 Re(V conj I))' % (l[k], g, th, ph, ptrue))
+    # the dBi table does not depend on the requested power level or distance
+    for key, v in imp.items():
+        for a, b in zip(v['db'], base[key]['db']):
+            if (a <= -900) != (b <= -900) or (a > -900 and abs(10 ** (a / 10) - 10 ** (b / 10)) > 1e-9 * mx):
+                return ('the dBi table changes with the requested power level: %r dBi at %r with 25 W / 1000 m requested, %r without'
+                        % (a, key, b))
     # V/m scaling
     imp2 = farlib.impl_far(m, THETAS, PHIS, pwr=100.0, dist=500.0)
     for key, v in imp.items():
